@@ -303,7 +303,9 @@ def ob_mono_instances(r, tier, seed):
     W.stubs['ty_compact'] = m_ty_compact
     T = lambda n, *f: Agg(TY.key, TY.vindex(n), list(f))
     E = lambda n, **kw: Agg(CE.key, CE.vindex(n), [kw[f[0]] for f in CE.variants[CE.vindex(n)].fields])
-    def fn(name, generics, params, ret, body): return Agg(CF.key, 0, [{'name': mkstr(name), 'generics': PyVec([mkstr(g) for g in generics]), 'params': PyVec([Agg('tuple', 0, [mkstr(n), t]) for n, t in params]), 'ret_ty': ret, 'body': body}[fl[0]] for fl in CF.variants[0].fields])
+    def fn(name, generics, params, ret, body):
+        generics = []          # the pipeline builds every top-level core::Fn with an empty `generics` list: genericity is read off the signature (fn_is_generic -> has_tparam)
+        return Agg(CF.key, 0, [{'name': mkstr(name), 'generics': PyVec([mkstr(g) for g in generics]), 'params': PyVec([Agg('tuple', 0, [mkstr(n), t]) for n, t in params]), 'ret_ty': ret, 'body': body}[fl[0]] for fl in CF.variants[0].fields])
     def entry(ex):
         kind = ex.choose([(True, k) for k in ('result-only', 'param', 'fn-result')]); ex.notes['kind'] = kind
         i32, bl, st, un = T('TInt32'), T('TBool'), T('TString'), T('TUnit'); tp = lambda n: T('TParam', mkstr(n))
